@@ -321,6 +321,8 @@ class Sim:
         if self.drop and self.drop(idx, src, fr):
             self.log({"ev": "lost", "node": src.name, "idx": idx, "why": "drop"})
             return
+        if not fr[1]:
+            return          # base-format (11-bit) frame: the stack's bus listener ignores those
         for n in self.nodes:
             if n is src:
                 continue
